@@ -401,7 +401,9 @@ find_attribute (const gchar  *name,
 static void
 state_switch (ParseContext *ctx, ParseState newstate)
 {
-  g_assert (ctx->state != newstate);
+  /* A record can be a member of a record and a union of a union */
+  g_assert (ctx->state != newstate ||
+            newstate == STATE_STRUCT || newstate == STATE_UNION);
   ctx->prev_state = ctx->state;
   ctx->state = newstate;
 
